@@ -119,6 +119,7 @@ pub const C_FORCED_FAIR: usize = 18;
 pub const C_QUIESCENT: usize = 19;
 pub const C_FLIP_WATCH: usize = 20;
 pub const C_STALLED_READER: usize = 21;
+pub const C_WAKE_CALLS: usize = 22;
 pub const C_ENGINE_BASE: usize = 32;
 
 // ---------------------------------------------------------------------------------------------
@@ -289,10 +290,15 @@ pub struct Thread {
     prio: i64,
     /// open read sections: (snapshot ptr, handler depth, generation location, op-seq of the generation sample)
     pub open_reads: Vec<(usize, u32, usize, u64)>,
-    sampling: Option<(usize, u64)>,
+    /// generation samples not yet followed by the pointer load: (generation location, op-seq, handler depth)
+    sampling: Vec<(usize, u64, u32)>,
+    /// read sections whose end was announced (read_close) but whose counter decrement has not
+    /// executed yet: (generation location, sample op-seq, handler depth)
+    closing: Vec<(usize, u64, u32)>,
     flip_watch: Option<FlipWatch>,
     store_begin_seq: u64,
     handler_entry_opseq: u64,
+    pub wake_calls: u64,
     pub own_steps0: u64,
     pub name: &'static str,
     cas_spur_run: u32,
@@ -708,10 +714,12 @@ impl Thread {
             last_sched: 0,
             prio,
             open_reads: Vec::new(),
-            sampling: None,
+            sampling: Vec::new(),
+            closing: Vec::new(),
             flip_watch: None,
             store_begin_seq: 0,
             handler_entry_opseq: 0,
+            wake_calls: 0,
             own_steps0: 0,
             name,
             cas_spur_run: 0,
@@ -933,6 +941,17 @@ impl Sim {
             who: me,
         };
         let desc = self.describe();
+        if let Some((rt, wt)) = self.stalled_for {
+            let msg = format!(
+                "writer T{} cannot finish its barrier while delivery on T{} - which began after the writer's generation switch, when every earlier reader had a clean slot - is stalled inside its read section: the writer waits for later deliveries, so a stream of overlapping finite deliveries starves it ({} at step {}: {})",
+                wt,
+                rt,
+                if livelock { "livelock" } else { "deadlock" },
+                self.steps,
+                desc
+            );
+            violation("C18", "barrier-waits-for-later-readers", &msg);
+        }
         let (prop, oracle, extra) = match self.classify_deadlock {
             Some(ref f) => f(&info),
             None => ("C18".to_string(), if livelock { "livelock" } else { "deadlock" }.to_string(), String::new()),
@@ -1211,6 +1230,16 @@ pub fn set_thread_panic_prop(prop: &str) {
     let _g = ShimGuard::new();
     sim().thread_panic_prop = Some(prop.to_string());
 }
+/// Number of self-pipe wake-up writes the calling thread has attempted so far.
+pub fn my_wake_calls() -> u64 {
+    let s = sim();
+    s.threads[s.cur].wake_calls
+}
+pub fn note_wake_call() {
+    let s = sim();
+    let me = s.cur;
+    s.threads[me].wake_calls += 1;
+}
 pub fn set_stall_later_reader(n: u32) {
     sim().stall_later_reader = n;
 }
@@ -1449,7 +1478,9 @@ pub fn mm_load(addr: usize, ord: Ordering, current: u64) -> u64 {
     s.opseq += 1;
     if s.gen_locs.contains_key(&addr) {
         let q = s.opseq;
-        s.threads[me].sampling = Some((addr, q));
+        let d = handler_depth();
+        s.threads[me].sampling.retain(|(_, _, dd)| *dd != d);
+        s.threads[me].sampling.push((addr, q, d));
     }
     s.ensure_init(addr, current);
     let wm = s.cfg.wm && !s.threads[me].spinning;
@@ -1522,11 +1553,53 @@ pub fn mm_store(addr: usize, ord: Ordering, before: u64, newval: u64) {
     s.write_clears_spin(me);
 }
 
+/// The counter decrement that ends a read section has executed.
+fn finalize_close(s: &mut Sim, me: usize) {
+    let depth = handler_depth();
+    let pos = match s.threads[me].closing.iter().rposition(|(_, _, d)| *d == depth) {
+        Some(p) => p,
+        None => return,
+    };
+    let (gl, gq, _) = s.threads[me].closing.remove(pos);
+    s.opseq += 1;
+    let now = s.opseq;
+    if gl == 0 {
+        // a section whose generation sample we did not see (it began before the generation
+        // counter's address was known): conservatively a late reader of every half-lock
+        for (_, v) in s.gen_locs.iter_mut() {
+            v.1 = now;
+        }
+        return;
+    }
+    if let Some((last_flip, stale_close, _)) = s.gen_locs.get_mut(&gl) {
+        if gq < *last_flip {
+            // this reader sampled the generation before the latest switch
+            *stale_close = now;
+        }
+    }
+    // writers watching this reader
+    for t in 0..s.threads.len() {
+        let own0 = s.threads[t].own_steps0;
+        if let Some(wa) = s.threads[t].flip_watch.as_mut() {
+            if wa.gen == gl && gq < wa.flip && wa.pending > 0 {
+                wa.pending -= 1;
+                if wa.pending == 0 {
+                    wa.armed = true;
+                    wa.own0_at_arm = own0;
+                }
+            }
+        }
+    }
+}
+
 /// Model a successful read-modify-write (reads the newest message).
 pub fn mm_rmw(addr: usize, ord: Ordering, before: u64, newval: u64) {
     let _g = ShimGuard::new();
     let s = sim();
     let me = s.cur;
+    if !s.threads[me].closing.is_empty() {
+        finalize_close(s, me);
+    }
     s.ensure_init(addr, before);
     let prev = *s.locs.get(&addr).unwrap().hist.last().unwrap();
     if is_acq(ord) && prev.has_rel {
@@ -1686,6 +1759,16 @@ pub fn ev_snap_alloc(p: usize) {
     log(EV_SNAP_ALLOC, id as u64, 0);
 }
 
+fn take_sample(t: &mut Thread, depth: u32) -> (usize, u64) {
+    match t.sampling.iter().rposition(|(_, _, d)| *d == depth) {
+        Some(i) => {
+            let (g, q, _) = t.sampling.remove(i);
+            (g, q)
+        }
+        None => (0, 0),
+    }
+}
+
 pub fn ev_read_open(p: usize) {
     let _g = ShimGuard::new();
     let s = sim();
@@ -1699,7 +1782,7 @@ pub fn ev_read_open(p: usize) {
                 violation("C01", "read-of-freed-snapshot", &format!("T{} opened a read section on snapshot #{} which had already been freed (step {})", me, id, s.steps));
             }
             sn.open += 1;
-            let (gl, gq) = s.threads[me].sampling.take().unwrap_or((0, 0));
+            let (gl, gq) = take_sample(&mut s.threads[me], depth);
             s.threads[me].open_reads.push((p, depth, gl, gq));
             if s.stall_later_reader > 0 && s.stalled_for.is_none() && gl != 0 && depth == 1 {
                 // is there a writer whose generation switch this reader came after?
@@ -1719,7 +1802,7 @@ pub fn ev_read_open(p: usize) {
             let id = s.next_snap;
             s.next_snap += 1;
             s.snaps.insert(p, Snapshot { id, live: true, open: 1, closes: Vec::new() });
-            let (gl, gq) = s.threads[me].sampling.take().unwrap_or((0, 0));
+            let (gl, gq) = take_sample(&mut s.threads[me], depth);
             s.threads[me].open_reads.push((p, depth, gl, gq));
             log(EV_READ_OPEN, id as u64, 1);
         }
@@ -1733,38 +1816,9 @@ pub fn ev_read_close(p: usize) {
     s.threads[me].vc[me] += 1;
     let c = s.threads[me].vc[me];
     if let Some(pos) = s.threads[me].open_reads.iter().rposition(|(q, _, _, _)| *q == p) {
-        let (_, _, gl, gq) = s.threads[me].open_reads.remove(pos);
-        s.opseq += 1;
-        let now = s.opseq;
-        if gl == 0 {
-            // a section whose generation sample we did not see (it began before the generation
-            // counter's address was known): conservatively a late reader of every half-lock
-            for (_, v) in s.gen_locs.iter_mut() {
-                v.1 = now;
-            }
-        }
-        if gl != 0 {
-            if let Some((last_flip, stale_close, _)) = s.gen_locs.get_mut(&gl) {
-                if gq < *last_flip {
-                    // this reader sampled the generation before the latest switch
-                    *stale_close = now;
-                    let _ = stale_close;
-                }
-            }
-            // writers watching this reader
-            for t in 0..s.threads.len() {
-                let own0 = s.threads[t].own_steps0;
-                if let Some(wa) = s.threads[t].flip_watch.as_mut() {
-                    if wa.gen == gl && gq < wa.flip && wa.pending > 0 {
-                        wa.pending -= 1;
-                        if wa.pending == 0 {
-                            wa.armed = true;
-                            wa.own0_at_arm = own0;
-                        }
-                    }
-                }
-            }
-        }
+        let (_, d, gl, gq) = s.threads[me].open_reads.remove(pos);
+        // the slot counter is only released by the fetch_sub that follows
+        s.threads[me].closing.push((gl, gq, d));
     }
     if let Some(sn) = s.snaps.get_mut(&p) {
         log(EV_READ_CLOSE, sn.id as u64, 0);
@@ -1875,12 +1929,23 @@ pub fn ev_gen_flip(gen: usize) {
                 clean = false; // a section whose generation sample we did not see
             }
         }
-        if let Some((gl, gq)) = t.sampling {
-            if gl == gen {
+        for (gl, gq, _) in t.sampling.iter() {
+            if *gl == gen {
                 pending += 1;
-                if gq < prev_flip {
+                if *gq < prev_flip {
                     clean = false;
                 }
+            }
+        }
+        for (gl, gq, _) in t.closing.iter() {
+            any_open = true;
+            if *gl == gen {
+                pending += 1;
+                if *gq < prev_flip {
+                    clean = false;
+                }
+            } else if *gl == 0 {
+                clean = false;
             }
         }
     }
